@@ -204,7 +204,7 @@ PROPS = {
         partial=['Props/MachineObjects.lean proves on the whole machine, for every program and every number of steps, that an event that has a value keeps exactly that value (event_triggered_once), that processed callbacks are never armed again (callbacks_processed_once) and that it keeps its flag and kind; resumption of every waiter at the trigger time is judged on traces, not proved over all machine states'],
     ),
     'C20': dict(
-        gen=['Timing', 'Scope'], props=['C20', 'C02', 'Skeletons'], model=['Machine/Run', 'Machine/Step', 'Judge/Judges'], harness='c20',
+        gen=['Timing', 'Scope'], props=['C20', 'MachineYield', 'C02', 'Skeletons'], model=['Machine/Run', 'Machine/Step', 'Judge/Judges'], harness='c20',
         trusted_base=KERNEL_TB + MACHINE_TB + ['templates: postpone/suspend/__await__ of conditions, Scope.__aexit__; the per-operation code paths are hand-modelled in Machine/Run.lean and tied by exact trace correspondence'],
         assumptions=['an activity made runnable earlier in the same time step runs before a later-scheduled wake-up (C02 fifo_now)',
                      'acquiring a free Lock is not among the operations the property lists and does not yield (documented in DESIGN.md)'],
@@ -444,7 +444,7 @@ MANIFEST_TEXT = {
         technique='Lean 4 proof over the frame machine + exact whole-machine differential traces + Lean trace judge',
         design_ref='6 (C18)'),
     'C20': dict(
-        level='Lean 4 theorems for every world state: postpone() always hibernates the caller and queues its wake-up behind '
+        level='Further operations end in a postponement, for every world (Props/MachineYield.lean): the four steps of borrowing and giving back, the helper activities of a forcefully closed block, increase, taking a buffered item, a tick whose time has come, delay(0). Lean 4 theorems for every world state: postpone() always hibernates the caller and queues its wake-up behind '
               'everything already runnable (postpone_hibernates, with C02 fifo_now); each listed operation in a state where it '
               'need not wait reduces to that postpone before completing (setFlag/sleep 0/setTracked/put/close/scope exit/'
               'true-condition await/zero transfer lemmas). Table of every awaitable operation x 1-3 other runnable activities, and '
